@@ -1,4 +1,6 @@
 import TsProofs.Location
+import TsProofs.Properties.C15
+import TsProofs.Properties.C16
 /-!
 # C05 — Committed manifest entries exist, fit, are disjoint, written once, confined
 
@@ -207,6 +209,24 @@ theorem C05_exists_fits_partial (abs : Bool) (rc : List Str) (hrc : ∀ c ∈ rc
     exact hperm.symm.pairwise hnd (fun h e => h e.symm)
   exact storeAfter_of_nodup _ hnd' (fsPath (Root abs rc) u.location, u.bytes)
     (List.mem_map.mpr ⟨u, hperm.symm.subset hu, rfl⟩)
+
+/-- **Disjoint byte ranges.** Inside every slab written by `batch_write_requests` (any request list, any
+threshold ≥ 1) the members' byte ranges are consecutive from 0, hence pairwise disjoint, and add up to the
+slab's size — so byte ranges of distinct saved objects never overlap (objects in different files are disjoint
+by `C05_written_once_partial`). Re-export of `C16_slab_ranges`. -/
+theorem C05_disjoint {α : Type} (reqs : List (Ts.Slab.WReq α)) (thr : Nat) (hthr : 1 ≤ thr) (j : Nat) :
+    ∃ size, Ts.Chunk.Consec 0 ((Ts.Slab.slabMembers (Ts.Slab.place thr reqs 0 0).zipIdx j).map (·.1)) size ∧
+      ((Ts.Slab.slabMembers (Ts.Slab.place thr reqs 0 0).zipIdx j).map (·.1)).Pairwise (fun p q => p.2 ≤ q.1) := by
+  obtain ⟨size, hc, _, _, hpw⟩ := (Ts.C16.C16_slab_ranges reqs thr hthr).2.2.2 j
+  exact ⟨size, hc, hpw⟩
+
+/-- **Every leaf exactly once.** All logical paths produced by flattening a stateful's state (containers and
+leaves together) are pairwise distinct, for every nesting and key set — so the manifest built from them
+lists each leaf exactly once per rank (the per-rank prefix and the replicated/consolidated view are C07's).
+Re-export of `C15_flatten_paths_unique`. -/
+theorem C05_manifest_complete (t : Ts.Flatten.Tree) (pre : Ts.Path.Str) :
+    ((Ts.Flatten.flatten t pre).1.map (·.1) ++ (Ts.Flatten.flatten t pre).2.map (·.1)).Nodup :=
+  Ts.Flatten.C15_flatten_paths_unique t pre
 
 /-! ## Witnesses: the full-strength statement fails on the current tree (finding D13) -/
 
